@@ -32,7 +32,7 @@ example : WF sample := by decide
 /-- Unweld keeps every corner's attribute tuple, in order; indices become `0..k-1`; topology and
     materials are untouched. -/
 theorem unweld_spec [DecidableEq α] {m : MeshVal α} (h : WF m) : UnweldSpec m m.unweld :=
-  ⟨⟨rfl, rfl⟩, rfl, unweld_corners h⟩
+  ⟨⟨rfl, rfl⟩, rfl, unweld_attrLen h, unweld_corners h⟩
 
 /-- Unweld is idempotent. -/
 theorem unweld_idem {m : MeshVal α} (h : WF m) : m.unweld.unweld = m.unweld := unweld_unweld h
